@@ -3,7 +3,7 @@
 for p in "$@"; do
   for s in /verif/seeded/$p-*; do
     [ -f "$s/patch.diff" ] || continue
-    grep -q '"status": *"\(rejected\|superseded\)' "$s/meta.json" 2>/dev/null && continue
+    grep -q '"\(rejected\|superseded\)": *"' "$s/meta.json" 2>/dev/null && continue
     /verif/tools/tryseed.sh "$s" "$p" 2>&1 | head -1
   done
 done
